@@ -20,6 +20,7 @@ struct G<'a> {
     cmds: Vec<Value>,
     /// parallel width of the factory picked last (byte lengths are scaled to it)
     cur_w: usize,
+    cur_bs: usize,
 }
 
 fn type_max(t: &str) -> u128 {
@@ -50,6 +51,7 @@ impl<'a> G<'a> {
                 continue;
             }
             self.cur_w = f.w();
+            self.cur_bs = f.bs();
             return i;
         }
     }
@@ -81,6 +83,15 @@ impl<'a> G<'a> {
         n.min(cap)
     }
     /// byte length biased around multiples of bs; long enough for full parallel groups of width w
+    /// now and then a long message (more than 256, more than 512 blocks) fed in very few calls: an index or a
+    /// length kept in a narrow integer type would only show there
+    fn long_n(&mut self) -> Option<usize> {
+        if self.cur_bs <= 16 && self.rng.chance(1, if self.thorough { 30 } else { 60 }) {
+            Some(*self.rng.pick(&[257, 300, 513, 600]) + self.rng.below(3))
+        } else {
+            None
+        }
+    }
     fn nbytes_w(&mut self, bs: usize, w: usize, maxblocks: usize) -> usize {
         let k = if self.rng.chance(1, 3) { self.nblocks(w, maxblocks) } else { self.rng.range(0, maxblocks) };
         let d = *self.rng.pick(&[0usize, 0, 1, bs - 1, bs / 2, 2]);
@@ -252,7 +263,7 @@ fn is_block(k: &str) -> bool {
 }
 
 pub fn generate(prop: &str, tier: &str, facs: &[Box<dyn Factory>], rng: &mut Rng, _i: usize) -> Value {
-    let mut g = G { facs, rng, thorough: tier == "thorough", cmds: vec![], cur_w: 1 };
+    let mut g = G { facs, rng, thorough: tier == "thorough", cmds: vec![], cur_w: 1, cur_bs: 1 };
     match prop {
         "C01" => gen_c01(&mut g),
         "C02" => gen_conf(&mut g, &["cbc", "pcbc", "ige"]),
@@ -404,6 +415,18 @@ fn gen_conf(g: &mut G, kinds: &[&str]) {
             g.new_obj("a", f, kind, dir, 0, json!({"rand":0}), src0.clone(), "inner");
             let oneshot = (kind == "cfb" || kind == "cfb8") && g.rng.chance(1, 4);
             let n = g.nblocks(w, 9) * if kind == "cfb8" { 2 } else { 1 };
+            if let Some(ln) = g.long_n() {
+                let ln = ln * if kind == "cfb8" { bs } else { 1 };
+                let cut = *g.rng.pick(&[0usize, 1, 255, 256, ln - 1]);
+                let (b1, b2) = (g.rng.coin(), g.rng.coin());
+                if cut > 0 {
+                    g.blocks("a", cut, true, b1);
+                }
+                g.blocks("a", ln - cut, true, b2);
+                g.op("export", "a");
+                g.blocks("a", 1, true, b1);
+                return;
+            }
             if g.rng.chance(1, 7) {
                 // the padded front-ends, every padding scheme: the padded ciphertext and what is left after removing
                 // the padding are judged absolutely (a mode may override these provided methods)
@@ -562,6 +585,19 @@ fn gen_c07(g: &mut G) {
             let o = format!("o{j}");
             g.new_obj(&o, fi, &kind, dir, 0, iv.clone(), src0.clone(), "inner");
             g.oneshot(&o, "cts", n, b2b);
+        }
+        return;
+    }
+    if let Some(ln) = g.long_n() {
+        let ln = ln * if kind == "cfb8" { bs } else { 1 };
+        for (j, cuts) in [vec![ln], vec![256, ln - 256], vec![ln - 1, 1], vec![255, 2, ln - 257]].iter().enumerate() {
+            let o = format!("o{j}");
+            let fi = if j == 0 { f } else { *g.rng.pick(&fs) };
+            g.new_obj(&o, fi, &kind, dir, 0, iv.clone(), src0.clone(), "inner");
+            for &k in cuts {
+                g.blocks(&o, k, true, b2b);
+            }
+            g.op("export", &o);
         }
         return;
     }
@@ -1280,12 +1316,35 @@ fn gen_c15(g: &mut G) {
     for k in CTR_KINDS.iter().chain(["belt", "ofb"].iter()) {
         kinds.push(k.to_string());
     }
-    kinds.push("cfbbuf".into());
+    for _ in 0..3 {
+        kinds.push("cfbbuf".into()); // the one byte-level type with error propagation of its own
+    }
     let kind = g.rng.pick(&kinds).clone();
     let f = g.pick_fac(&kind);
     let (bs, w) = (g.bs(f), g.w(f));
     let iv = g.iv_for(&kind, 0);
     let bytelevel = !is_block(&kind);
+    if kind == "cfbbuf" && g.rng.coin() {
+        // one long piece (many whole blocks in a single call) between a short head and a tail, perturbed near the end
+        // of the long piece half of the time: a bulk path inside the buffered type would show there
+        let head = if g.rng.coin() { 0 } else { g.rng.below(bs.max(2)) };
+        let big = (bs - head % bs) % bs + bs * g.rng.range(3, 14) + if g.rng.coin() { 0 } else { g.rng.below(bs) };
+        let tail = g.rng.range(1, 3 * bs);
+        let total = head + big + tail;
+        let end = head + big;
+        let j = if g.rng.coin() { end.saturating_sub(1 + g.rng.below(3 * bs)) } else { g.rng.below(total) };
+        let delta = vec![1u8 << g.rng.below(8)];
+        g.new_obj("a", f, &kind, "dec", 0, iv.clone(), json!({"rand":0}), "inner");
+        g.new_obj("b", f, &kind, "dec", 0, iv.clone(), json!({"xor": {"rand":0}, "at": j, "delta": delta}), "inner");
+        for o in ["a", "b"] {
+            for n in [head, big, tail] {
+                if n > 0 {
+                    g.bytes(o, n, false);
+                }
+            }
+        }
+        return;
+    }
     let dir = if ctr_bits(&kind).is_some() || kind == "ofb" { "ks" } else { "dec" };
     // perturbation unit: block for cbc/cfb/pcbc/ige, byte otherwise
     let pu = if ["cbc", "cfb", "pcbc", "ige"].contains(&kind.as_str()) { bs } else { 1 };
